@@ -19,3 +19,75 @@ func ZZ_C12_bls12381_Fp4_Inv_independent_of_receiver() {
 	alias.Inv(&alias)
 	zzAssert(fresh == alias, "Inv with the receiver aliasing the argument = Inv into a zero receiver")
 }
+
+// C12/C11, the same question for the whole extension tower: every binary and unary arithmetic method
+// of Fp2, Fp4, Fp6, Fp12 and Fp12Cubic gives the same result whether its receiver is fresh, holds
+// previous contents, or aliases an operand (z = x, z = y, x = y).  Base-field kernels uninterpreted.
+
+
+func zzAliasBinary[T comparable](name string, op func(z, x, y *T)) {
+	var x, y, fresh, dirty T
+	zzFill("x", &x)
+	zzFill("y", &y)
+	zzFill("previous", &dirty)
+	op(&fresh, &x, &y)
+	op(&dirty, &x, &y)
+	zzAssert(fresh == dirty, name+": result independent of the receiver's previous contents")
+	zx := x
+	op(&zx, &zx, &y)
+	zzAssert(fresh == zx, name+": z = x")
+	zy := y
+	op(&zy, &x, &zy)
+	zzAssert(fresh == zy, name+": z = y")
+}
+
+func zzAliasUnary[T comparable](name string, op func(z, x *T)) {
+	var x, fresh, dirty T
+	zzFill("x", &x)
+	zzFill("previous", &dirty)
+	op(&fresh, &x)
+	op(&dirty, &x)
+	zzAssert(fresh == dirty, name+": result independent of the receiver's previous contents")
+	zx := x
+	op(&zx, &zx)
+	zzAssert(fresh == zx, name+": z = x")
+}
+
+//zz: prop=C12 also=C11 tier=quick backend=bv use=ffuf timeout=600 budget=1200
+func ZZ_C12_bls12381_tower_operations_alias_safe() {
+	if !zzSymbolic() {
+		zzModelOnly()
+	}
+	switch zzPick("operation", 0, 1, 2, 3, 4, 5, 6, 7, 8, 9, 10, 11, 12, 13, 14) {
+	case 0:
+		zzAliasBinary("Fp2.Mul", func(z, x, y *Fp2) { z.Mul(x, y) })
+	case 1:
+		zzAliasUnary("Fp2.Sqr", func(z, x *Fp2) { z.Sqr(x) })
+	case 2:
+		zzAliasUnary("Fp2.Inv", func(z, x *Fp2) { z.Inv(x) })
+	case 3:
+		zzAliasBinary("Fp4.Mul", func(z, x, y *Fp4) { z.Mul(x, y) })
+	case 4:
+		zzAliasUnary("Fp4.Sqr", func(z, x *Fp4) { z.Sqr(x) })
+	case 5:
+		zzAliasBinary("Fp6.Mul", func(z, x, y *Fp6) { z.Mul(x, y) })
+	case 6:
+		zzAliasUnary("Fp6.Sqr", func(z, x *Fp6) { z.Sqr(x) })
+	case 7:
+		zzAliasUnary("Fp6.Inv", func(z, x *Fp6) { z.Inv(x) })
+	case 8:
+		zzAliasUnary("Fp6.Frob", func(z, x *Fp6) { z.Frob(x) })
+	case 9:
+		zzAliasBinary("Fp12.Mul", func(z, x, y *Fp12) { z.Mul(x, y) })
+	case 10:
+		zzAliasUnary("Fp12.Sqr", func(z, x *Fp12) { z.Sqr(x) })
+	case 11:
+		zzAliasUnary("Fp12.Inv", func(z, x *Fp12) { z.Inv(x) })
+	case 12:
+		zzAliasUnary("Fp12.Frob", func(z, x *Fp12) { z.Frob(x) })
+	case 13:
+		zzAliasBinary("Fp12Cubic.Mul", func(z, x, y *Fp12Cubic) { z.Mul(x, y) })
+	case 14:
+		zzAliasUnary("Fp12Cubic.Sqr", func(z, x *Fp12Cubic) { z.Sqr(x) })
+	}
+}
